@@ -3,4 +3,4 @@ import strategy
 
 
 def run(res, tier, seed, replay):
-    return strategy.run_property(res, "C16", tier, seed, replay, ["C16", "C16perf"])
+    return strategy.run_property(res, "C16", tier, seed, replay, ["C16", "C16perf", "C16float"])
